@@ -33,6 +33,33 @@ type settleDue struct {
 	resolvedAtEB int
 	bound        int
 	done         bool
+	b, p         uint64 // pending bets / unpaid participations ahead in the pipeline at resolution
+	nb, no       uint64 // smallest batch sizes in force since the resolution (the proved bound needs a lower bound on them)
+}
+
+// noteBatchSizes: after a parameter change, the deadlines of the markets still settling use the smallest batch sizes
+// that were in force since their resolution (hypothesis batchAtLeast of c05_settles_within).
+func noteBatchSizes(e *Env) {
+	nb64 := uint64(e.App.BetKeeper.GetParams(e.Ctx).BatchSettlementCount)
+	no64 := e.App.OrderbookKeeper.GetParams(e.Ctx).BatchSettlementCount
+	if nb64 == 0 {
+		nb64 = 1
+	}
+	if no64 == 0 {
+		no64 = 1
+	}
+	for _, du := range coreSeen.due {
+		if du.done {
+			continue
+		}
+		if nb64 < du.nb {
+			du.nb = nb64
+		}
+		if no64 < du.no {
+			du.no = no64
+		}
+		du.bound = int(du.b/du.nb) + int(du.p/du.no) + 1
+	}
 }
 
 // liveGrant is the harness's own record of an authz grant it created: the expiry the granter chose and what is left of the limit.
@@ -941,7 +968,7 @@ func noteResolved(e *Env, d *coreDump, uid string) {
 	// participations use up the block's budget exactly is only looked at in the next block,
 	// c05_ceil_bound_counterexample.)
 	bound := qb + qp + 1
-	coreSeen.due[uid] = &settleDue{resolvedAtEB: coreSeen.ebCount, bound: bound}
+	coreSeen.due[uid] = &settleDue{resolvedAtEB: coreSeen.ebCount, bound: bound, b: uint64(B), p: uint64(P), nb: nb64, no: no64}
 }
 
 // settleBoundMonitor runs after every end-block: every resolved market must be completely settled (no pending bet,
